@@ -20,7 +20,7 @@ Proof.
                                 | apply prel_introspect | apply prel_revoke | apply prel_userinfo | apply prel_token_info
                                 | apply prel_token_info_from_request | apply prel_init_back_auth]).
   - destruct g; try (apply PR_ret; reflexivity); apply prel_lift;
-      first [apply prel_code_grant | apply prel_refresh_grant | apply prel_cc_grant | apply prel_ciba_grant].
+      first [apply prel_code_grant | apply prel_refresh_grant | apply prel_cc_grant | apply prel_ciba_grant | apply prel_jwt_bearer_grant].
   - apply prel_notif, prel_notify_success.
   - apply prel_notif, prel_notify_failure.
   - apply PR_ret; reflexivity.
